@@ -83,3 +83,7 @@ CHECKS["C20"].update(technique=_T_S, engine="pyvc+rtc", text="Real dot-product /
 CHECKS["C12"]["text"] = "Proved for all inputs: reference-boundary check/repair (raises iff not well-formed / not documented-repairable, repaired row passes a strict pass, only documented field changes), alignment-length crop rule, utterance discovery by prefix/suffix. Validation iff well-formed, validate/fix/validate histories, info recount, sos/eos inverse and utterance discovery on generated directories bounded."
 CHECKS["C17"]["text"] = "Proved for all file names/prefixes/suffixes: each of the six directory filters selects exactly startswith(prefix) and endswith(suffix) and derives the documented id. Conversions (trn/ctm/TextGrid/alignments round trips), error-rate totals for every batch size, subsetting, statistics and worker-count invariance on the real CLI entry points bounded."
 NOT_APPLICABLE = {("C%02d" % i): _PENDING for i in range(1, 21) if ("C%02d" % i) not in CHECKS}
+
+CHECKS["C05"].update(technique=_T_S, engine="pyvc+rtc", text="Real ctc_prefix_search_advance source symbolically executed per beam shape against the scalar prefix-beam recursion (extension / keep / merge masses, tokens, lengths, distinct, best-first, optimal, new prefix relation, fillers) for all probabilities and token ids with an assumed -inf-aware top-k contract; whole searches (exact alignment sums, reference prefix beam, fusion, batch = solo) by exhaustive run-time contracts.")
+CHECKS["C12"]["text"] = CHECKS["C12"]["text"].replace("utterance discovery by prefix/suffix.", "utterance discovery by prefix/suffix. Per transcript length, all contents: _load_ref / _write_hyp are inverse for symbolic tokens, sos and eos (0 and negative values included) with arbitrary symbols around the hypothesis.", 1)
+CHECKS["C17"]["text"] = CHECKS["C17"]["text"] + " Proved for all file names, prefixes and suffixes: _DirectoryDataset lists the selected files' ids in ascending id order (the order --first-n and the error-rate pairing rely on)."
